@@ -3,6 +3,7 @@ import itertools
 import json
 import os
 import random
+import re
 import tempfile
 
 import corecheck
@@ -51,6 +52,147 @@ def graph_jobs(rng, n, edges, k, tier):
     return jobs
 
 
+MODES = ['hashable', 'id-eq', 'id-plain']
+
+
+def q(trivial, take=None, keep=False):
+    return {'op': 'sccs', 'trivial': trivial, 'take': take, 'keep': keep}
+
+
+def both_modes(rng):
+    """two complete queries in a row, one per mode, in either order"""
+    t = rng.random() < 0.5
+    return [q(t), q(not t)]
+
+
+def random_queries(rng):
+    """nothing, or 1..3 queries in a row: either mode, taken completely or only
+    in part (the generator then closed, or left suspended)"""
+    if rng.random() < 0.3:
+        return []
+    out = []
+    for _ in range(rng.choice([1, 1, 2, 2, 3])):
+        take = None if rng.random() < 0.55 else rng.randint(1, 2)
+        out.append(q(rng.random() < 0.5, take, take is not None and rng.random() < 0.4))
+    return out
+
+
+def history_job(hid, mode, universe, muts, queries, rng, first=()):
+    """mutators `muts` with the query block queries(rng) after each of them
+    (`first`: queries before the first mutator); the first step goes through
+    the constructor when it adds nodes and the coin says so"""
+    steps = list(first)
+    for i, m in enumerate(muts):
+        m = dict(m)
+        if i == 0 and not steps and m['op'] == 'add_nodes' and rng.random() < 0.4:
+            m['op'] = 'ctor'
+        steps.append(m)
+        steps += queries(rng)
+    return {'op': 'sccs_history', 'id': hid, 'mode': mode, 'universe': universe,
+            'steps': steps}
+
+
+def exhaustive_histories(rng, tier):
+    """(A) two labels, the whole mutator alphabet of DiGraphApi.tla (add_nodes
+    of every chunk, add_neighbors of every node with every neighbour set, known
+    or not): every sequence of 3 mutators; (B) three nodes, then every sequence
+    of 3 (thorough: 4) add_neighbors calls with at most one neighbour.  Each
+    sequence once with both modes asked after every mutator (this covers all
+    its prefixes too) and, for a sample, with random query blocks."""
+    jobs = []
+    u2 = ['n1', 'n2']
+    sub2 = [[], ['n1'], ['n2'], ['n1', 'n2']]
+    alpha_a = [{'op': 'add_nodes', 'nodes': c} for c in sub2] + \
+              [{'op': 'add_neighbors', 'node': x, 'nbs': c} for x in u2 for c in sub2]
+    u3 = ['n1', 'n2', 'n3']
+    alpha_b = [{'op': 'add_neighbors', 'node': x, 'nbs': c}
+               for x in u3 for c in [[]] + [[y] for y in u3]]
+    fams = [('A', u2, alpha_a, 3, []),
+            ('B', u3, alpha_b, 3 if tier == 'quick' else 4,
+             [{'op': 'add_nodes', 'nodes': u3}])]
+    modes = MODES if tier != 'quick' else None
+    for name, uni, alpha, length, prefix in fams:
+        for k, seq in enumerate(itertools.product(alpha, repeat=length)):
+            muts = prefix + list(seq)
+            for mode in modes or [rng.choice(MODES)]:
+                jobs.append(history_job('h%s%d_%s_all' % (name, k, mode), mode, uni, muts,
+                                        both_modes, rng))
+            if tier != 'quick' or rng.random() < 0.35:
+                mode = rng.choice(MODES)
+                jobs.append(history_job('h%s%d_%s_rnd' % (name, k, mode), mode, uni, muts,
+                                        random_queries, rng, first=random_queries(rng)))
+    return jobs
+
+
+def random_histories(rng, count):
+    """2..6 nodes (sometimes a label that never becomes a node), 3..12 mutators
+    in any order - neighbours before their nodes exist, repeated and empty
+    arguments - and queries anywhere"""
+    jobs = []
+    for k in range(count):
+        n = rng.randint(2, 6)
+        uni = ['n%d' % i for i in range(1, n + 1)]
+        pool = uni + (['u1'] if rng.random() < 0.3 else [])
+        todo = uni[:]
+        rng.shuffle(todo)
+        muts = []
+        for _ in range(rng.randint(3, 12)):
+            if todo and (not muts or rng.random() < 0.3):
+                cut = rng.randint(1, len(todo))
+                chunk, todo = todo[:cut], todo[cut:]
+                if rng.random() < 0.2:
+                    chunk = chunk + [rng.choice(uni)]       # again / twice
+                muts.append({'op': 'add_nodes', 'nodes': chunk})
+            else:
+                nbs = [x for x in pool if rng.random() < rng.choice([0.15, 0.4])]
+                rng.shuffle(nbs)
+                if nbs and rng.random() < 0.1:
+                    nbs.append(nbs[0])
+                muts.append({'op': 'add_neighbors', 'node': rng.choice(pool), 'nbs': nbs})
+        mode = rng.choice(MODES)
+        jobs.append(history_job('hR%d_%s' % (k, mode), mode, pool, muts, random_queries, rng,
+                                first=random_queries(rng) if rng.random() < 0.2 else ()))
+    return jobs
+
+
+def history_record(job, observed, rid=None):
+    """the executed steps with what was observed, for Trace_Scc"""
+    steps = []
+    for s, o in zip(job['steps'], observed['steps']):
+        t = {k: v for k, v in s.items()
+             if k not in ('take', 'keep', 'model_obs', 'model_exhausted')}
+        t.update(o)
+        steps.append(t)
+    return {'id': rid or job['id'], 'steps': steps}
+
+
+def history_signature(clause, job, step, ctx):
+    s = job['steps'][step - 1]
+    trig = 'mutator' if s['op'] != 'sccs' else \
+        ('trivial-mode' if s['trivial'] else 'default-mode')
+    return '%s|%s|%s' % (clause, trig, ctx)
+
+
+def counterexample_history(out):
+    """the history of a DiGraphApi error trace (variable `last` of its states)"""
+    steps = []
+    for m in re.finditer(r'/\\ last = ', out):
+        v = tlc.parse_value(out[m.end():])
+        lab = lambda xs: ['n%d' % x for x in sorted(xs)]         # noqa: E731
+        if v['op'] == 'add_nodes':
+            steps.append({'op': 'add_nodes', 'nodes': lab(v['set'])})
+        elif v['op'] == 'add_neighbors':
+            steps.append({'op': 'add_neighbors', 'node': 'n%d' % v['node'],
+                          'nbs': lab(v['set'])})
+        elif v['op'] == 'sccs':
+            ys = [lab(c) for c in v['ys']]
+            s = q(v['trivial'], None if v['exhausted'] else len(ys))
+            s['model_obs'] = ys
+            s['model_exhausted'] = v['exhausted']
+            steps.append(s)
+    return steps
+
+
 def validate(chk, recs, label):
     fd, path = tempfile.mkstemp(prefix='verif-scc-', suffix='.json')
     with os.fdopen(fd, 'w') as f:
@@ -60,7 +202,9 @@ def validate(chk, recs, label):
     finally:
         os.unlink(path)
     chk.add_tlc('Trace_Scc ' + label, res)
-    return {m[1]: m[2] for m in tlc.printed_tuples(res.out, 'SCC')}
+    v = {m[1]: m[2] for m in tlc.printed_tuples(res.out, 'SCC')}
+    v.update({m[1]: tuple(m[2:5]) for m in tlc.printed_tuples(res.out, 'SCCH')})
+    return v
 
 
 def signature(clause, job):
@@ -72,23 +216,57 @@ def signature(clause, job):
     return '%s|%s' % (clause, trig)
 
 
+def report_history(chk, job, observed, verdict, prefix=''):
+    clause, step, ctx = verdict
+    s = job['steps'][step - 1]
+    o = observed['steps'][step - 1]
+    calls = ['%s(%s)' % (t['op'], t['nodes'] if 'nodes' in t else
+                         '%s, %s' % (t['node'], t['nbs']) if 'nbs' in t else
+                         'trivial=%s, take=%s' % (t['trivial'], t['take']))
+             for t in job['steps'][:step]]
+    chk.violation(history_signature(clause, job, step, ctx),
+                  '%s%s at step %d (%s) of the history %s on %s nodes -> %r'
+                  % (prefix, clause, step, ctx, '; '.join(calls), job['mode'],
+                     o.get('obs') if s['op'] == 'sccs' and not o['raised'] else o),
+                  {'job': job, 'observed': observed, 'failing_step': step, 'context': ctx})
+
+
 def run(chk, tier, seed, replay=None):
     chk.rule = ('(1) TLC: Tarjan.tla (one action per loop iteration of DiGraph.sccs) for '
                 'all 512 digraphs on 3 nodes with EVERY set-iteration order (root choice, '
                 'neighbour push order), nodes without neighbour entry, both modes; '
                 'thorough: all 65 536 digraphs on 4 nodes in canonical order; invariants: '
                 'result = SccOracle classes, each once, stack discipline, termination. '
-                '(2) real DiGraph.sccs: every digraph with self-loops on <= 3 nodes '
+                '(2) TLC: DiGraphApi.tla, the API history of one DiGraph object over 3 labels '
+                '(thorough: 4): add_nodes / add_neighbors with every argument (unknown nodes, '
+                'unknown neighbours) and sccs in both modes, taken completely or in part, in '
+                'every order and to every length; every answer = the oracle on the graph as '
+                'it is then, for the recomputing and for a remembering implementation; the '
+                'StaleCache deviation must give a counterexample, which is executed on the '
+                'real class. '
+                '(3) real DiGraph.sccs: every digraph with self-loops on <= 3 nodes '
                 '(thorough: 4) x construction histories (ctor / add_nodes chunks / split '
                 'add_neighbors calls / edges to unknown nodes / nodes without neighbour '
                 'entry) x hashable, identity-keyed and identity-keyed-but-==-equal nodes '
-                'x both modes, random digraphs up to 9 nodes; TLC evaluates the oracle; '
-                'distinct = distinct (graph, mode, trivial)')
+                'x both modes, random digraphs up to 9 nodes; '
+                '(4) real DiGraph, API histories on one object: every sequence of 3 mutators '
+                'of the full alphabet on 2 labels and of 3 (thorough: 4) add_neighbors calls '
+                'on 3 nodes with both modes asked after every mutator, the same with random '
+                'query blocks (none / repeated / partially consumed generators), random '
+                'histories on up to 6 nodes; every query judged at its point of the history. '
+                'TLC evaluates the oracle; '
+                'distinct = distinct (graph, mode, trivial) + distinct (history, mode)')
     rng = random.Random(seed * 7919 + 20)
+    hrng = random.Random(seed * 7919 + 2020)
     if replay:
         with open(replay) as f:
             r = json.load(f)
         out = runlib.run_worker('funcs_worker.py', [r['job']])
+        if r['job']['op'] == 'sccs_history':
+            rec = history_record(r['job'], out[0], 'replay')
+            for rid, verdict in validate(chk, [rec], 'replay').items():
+                report_history(chk, r['job'], out[0], verdict, 'replayed: ')
+            return
         rec = {'id': 'replay', 'nodes': r['job']['nodes'], 'succ': r['job']['succ'],
                'trivial': r['job']['trivial'], 'obs': out[0]['obs'], 'raised': out[0]['raised']}
         for rid, clause in validate(chk, [rec], 'replay').items():
@@ -101,6 +279,15 @@ def run(chk, tier, seed, replay=None):
     chk.add_tlc('Tarjan_dev', res, expect_ok=False)
     if not res.violation:
         chk.machinery('Tarjan_dev did not reproduce the KeyError deviation')
+    for cfg in ['DiGraphApi_q'] + ([] if tier == 'quick' else ['DiGraphApi_4']):
+        chk.add_tlc(cfg, tlc.run('DiGraphApi', cfg, timeout=6000))
+    res = tlc.run('DiGraphApi', 'DiGraphApi_dev_StaleCache', timeout=300)
+    chk.add_tlc('DiGraphApi_dev_StaleCache', res, expect_ok=False)
+    cex = counterexample_history(res.out) if res.violation else []
+    if not cex or cex[-1]['op'] != 'sccs':
+        chk.machinery('DiGraphApi_dev_StaleCache did not produce a history ending in a wrong '
+                      'answer:\n' + res.out[-1500:])
+        cex = []
     jobs = []
     k = 0
     for n in (1, 2, 3):
@@ -123,24 +310,64 @@ def run(chk, tier, seed, replay=None):
         edges = [(a, b) for a in range(n) for b in range(n) if rng.random() < dens]
         k += 1
         jobs += graph_jobs(rng, n, edges, k, 'quick')
+    ngraphs = len(jobs)
+    # API histories on one object: the model's counterexample (the real class
+    # has to give the right answers where the deviating model does not), the
+    # exhaustive small families, random ones
+    cexjobs = [{'op': 'sccs_history', 'id': 'cex_%s' % mode, 'mode': mode,
+                'universe': ['n1', 'n2', 'n3'], 'steps': cex} for mode in MODES] if cex else []
+    jobs += cexjobs
+    jobs += exhaustive_histories(hrng, tier)
+    jobs += random_histories(hrng, 1200 if tier == 'quick' else 40000)
     out = runlib.run_worker('funcs_worker.py', jobs)
     recs = []
     by_id = {}
+    nq = 0
     for job, r in zip(jobs, out):
+        by_id[job['id']] = (job, r)
+        if job['op'] == 'sccs_history':
+            recs.append(history_record(job, r))
+            nq += sum(1 for o in r['steps'] if 'obs' in o)
+            chk.nontrivial.add(json.dumps([job['steps'], job['mode']], sort_keys=True))
+            continue
         recs.append({'id': job['id'], 'nodes': job['nodes'], 'succ': job['succ'],
                      'trivial': job['trivial'], 'obs': r['obs'], 'raised': r['raised']})
-        by_id[job['id']] = (job, r)
         chk.nontrivial.add(json.dumps([job['succ'], job['mode'], job['trivial']], sort_keys=True))
-    chk.evaluations += len(recs)
-    chk.traces += len(recs)
-    j, r = jobs[len(jobs) // 3], out[len(jobs) // 3]
+    # vacuity guard of the history judgement: the deviating model's own answers
+    # to its counterexample have to be rejected, at its last step
+    guard = None
+    if cexjobs:
+        gsteps = [dict({k_: v for k_, v in s_.items() if k_ not in
+                        ('take', 'keep', 'model_obs', 'model_exhausted')}, raised='',
+                       **({'obs': s_['model_obs'], 'exhausted': s_['model_exhausted']}
+                          if s_['op'] == 'sccs' else {})) for s_ in cex]
+        guard = {'id': 'guard_model_answers', 'steps': gsteps}
+        recs.append(guard)
+    chk.evaluations += ngraphs + nq
+    chk.traces += len(recs) - (1 if guard else 0)
+    chk.extra['histories'] = {'histories_run': len(jobs) - ngraphs, 'queries_judged': nq,
+                              'counterexample_of_StaleCache': cex}
+    j, r = jobs[ngraphs // 3], out[ngraphs // 3]
     chk.sample({'succ': j['succ'], 'mode': j['mode'], 'trivial': j['trivial'],
                 'neighbor_calls': j['neighbor_calls'], 'yielded': r['obs']})
+    j, r = jobs[-1], out[-1]
+    chk.sample({'mode': j['mode'], 'history': history_record(j, r)['steps']})
     # TLC is run on chunks so that one huge JSON file is avoided
+    guarded = False
     for i in range(0, len(recs), 40000):
-        for rid, clause in validate(chk, recs[i:i + 40000], 'chunk %d' % (i // 40000)).items():
+        for rid, verdict in validate(chk, recs[i:i + 40000], 'chunk %d' % (i // 40000)).items():
+            if rid == 'guard_model_answers':
+                guarded = verdict[1] == len(cex) and verdict[2] == 'after-mutation'
+                continue
             job, r = by_id[rid]
+            if job['op'] == 'sccs_history':
+                report_history(chk, job, r, verdict)
+                continue
+            clause = verdict
             chk.violation(signature(clause, job),
                           '%s: succ %r, %s, trivial=%s -> %r %s'
                           % (clause, job['succ'], job['mode'], job['trivial'], r['obs'], r['raised']),
                           {'job': job, 'observed': r})
+    if guard and not guarded:
+        chk.machinery('Trace_Scc did not reject the stale answer of the StaleCache '
+                      'counterexample at its last step: %r' % (guard,))
